@@ -81,7 +81,38 @@ Theorem C12_fast_agrees_all_histories : forall (R : CR) ns m nv (steps : list (@
 Proof. exact main_fast_agrees_all_histories. Qed.
 Print Assumptions C12_fast_agrees_all_histories.
 
+(* the same with the option OBJECT's identity in the history (steps with the same [oid] were handed the same option object
+   - what LossMinimizationEstimator.calc_estimate_sequence does for every data set of a sequence -, other [oid]s are
+   equal-but-distinct or different objects; [o_opt] = the object the loss holds): the identities have no influence at all
+   (erasing them gives the same run), so the fast class agrees with the generic one after any such history too *)
+Theorem C12_fast_agrees_all_histories_with_option_reuse : forall (R : CR) ns m nv (steps : list (@ostep R)) (os : @ostate R)
+    (A : @mat R) (b q v : @vec R),
+  ext_matches (ns * m) m (f_w (o_st os)) (f_ext (o_st os)) ->
+  (forall os', run_fast_o m steps os = COk os' ->
+     run_fast m (map erase steps) (o_st os) = COk (o_st os') /\
+     (exists c', run_generic_o steps (f_w (o_st os), o_opt os) = COk c' /\ fst c' = f_w (o_st os')) /\
+     fast_value (ns * m) nv (f_ext (o_st os')) A b q v = se_value ns m nv (f_w (o_st os')) A b q v /\
+     forall al, fast_grad (ns * m) nv (f_ext (o_st os')) A b q v al = se_grad ns m nv (f_w (o_st os')) A b q v al) /\
+  (run_fast_o m steps os = CErr -> run_generic_o steps (f_w (o_st os), o_opt os) = CErr).
+Proof. exact main_fast_agrees_all_histories_with_option_reuse. Qed.
+Print Assumptions C12_fast_agrees_all_histories_with_option_reuse.
+
 (* ================= weighting modes ================= *)
+
+(* a configuration takes effect for the data of the CURRENT configuration: whatever the object holds - in particular when
+   it already holds this very option object ([o_opt os = Some oid]) and weights computed from earlier data - the weights
+   afterwards are those the option's VALUE (mode, option weights) denotes for the current data ([k]), in both classes,
+   and the fast cache is their extension *)
+Theorem C12_reconfiguration_uses_option_value_and_current_data_only : forall (R : CR) m oid md (c : @wts R) k (os : @ostate R),
+  match step_fast_o m (OConfig oid md c k) os, step_generic_o (OConfig oid md c k) (f_w (o_st os), o_opt os), mode_spec md c k with
+  | COk os', COk c', COk w =>
+      f_w (o_st os') = w /\ fst c' = w /\ o_opt os' = Some oid /\
+      f_ext (o_st os') = match w with Some w' => Some (ext_of m w') | None => None end
+  | CErr, CErr, CErr => True
+  | _, _, _ => False
+  end.
+Proof. exact main_reconfiguration_uses_current_data. Qed.
+Print Assumptions C12_reconfiguration_uses_option_value_and_current_data_only.
 
 (* EVERY mode the option classes accept takes effect, in the generic and in the fast class, whatever the object held
    before: the weights after the configuration are those the mode denotes (identity: none; custom: the option's;
@@ -164,6 +195,12 @@ Theorem C12_re_fast_agrees_all_histories : forall (F : OF) (ln : F -> F) ns m (s
     forall al, re_fast_grad_at F (ns * m) sel epsq epsp A p q al = re_grad_at F ns m (r_w st') epsq epsp A p q al.
 Proof. exact main_re_fast_agrees_all_histories. Qed.
 Print Assumptions C12_re_fast_agrees_all_histories.
+
+(* ... and option identities (same option object handed again, e.g. after a direct set_weights) have no influence *)
+Theorem C12_re_option_identity_irrelevant : forall (R : CR) m (steps : list (@rostep R)) (os : @rostate R),
+  ro_st (run_re_fast_o m steps os) = run_re_fast m (map rerase steps) (ro_st os).
+Proof. exact main_re_option_identity_irrelevant. Qed.
+Print Assumptions C12_re_option_identity_irrelevant.
 
 (* ================= relative entropy ================= *)
 
@@ -319,6 +356,11 @@ Proof. split; [|split; [|split]].
   - apply (k_leb Qc_OF). vm_compute. reflexivity.
   - apply (k_leb Qc_OF). vm_compute. reflexivity.
   - apply qc_neq. vm_compute. reflexivity. Qed.
+(* the history of calc_estimate_sequence: ONE option object (oid 7) for two data sets, then an equal-but-distinct one *)
+Example C12_ex_option_reuse : exists os',
+  run_fast_o 2 [OConfig 7 MInvSample None (Some (wW 3)); OConfig 7 MInvSample None (Some (wW 5)); OConfig 8 MInvSample None (Some (wW 3))]
+             {| o_st := @fresh Qc_OF; o_opt := None |} = COk os' /\ o_opt os' = Some 8%nat.
+Proof. eexists. split; reflexivity. Qed.
 (* a configured fast relative-entropy object without weights is a valid starting state *)
 Example C12_ex_re_history : rstate_ok 2 {| r_w := None; r_ew := @None (@vec Qc_OF) |}.
 Proof. exact I. Qed.
